@@ -501,7 +501,13 @@ class ConnectedRemotePeer(RemotePeer):
                     if self.local_peer.chain_manager.last_known_valid_coinstate:
                         self.local_peer.chain_manager.set_coinstate(
                             self.local_peer.chain_manager.last_known_valid_coinstate)
-                    DefaultBlockStore.instance.write_buffer.clear()  # don't save bad blocks
+                    # don't save bad blocks: drop what the rollback removed from the chain state (blocks that are part of the
+                    # last validated state, e.g. one the miner just found and buffered from its own thread, stay)
+                    valid = self.local_peer.chain_manager.last_known_valid_coinstate
+                    store = DefaultBlockStore.instance
+                    with store.lock:
+                        store.write_buffer[:] = [b for b in store.write_buffer
+                                                 if valid is not None and b.hash() in valid.block_by_hash]
                     return
 
                 self.local_peer.chain_manager.set_coinstate(coinstate_changed, validated=True)
